@@ -986,6 +986,11 @@ func main() {
 	for _, fn := range []string{"newDialOptions", "Keepalive", "KeepaliveTimeout", "MaxReconnect", "AuthTimeout", "DialTimeout", "MinGzipSize"} {
 		fmt.Fprintf(&w, "def stmts_opt_%s : List String := %s\n", fn, q(stmtTexts(findFunc(pkgs["client"], "", fn))))
 	}
+	// statement lists of the gzip glue (C10/C11 pool view: who takes an object from a pool, who resets it, who puts it back, and when)
+	for _, fr := range [][3]string{{"compressor", "Compress", "compressor_Compress"}, {"writer", "Close", "writer_Close"}, {"compressor", "Decompress", "compressor_Decompress"},
+		{"reader", "Read", "reader_Read"}, {"", "Compress", "Compress"}, {"", "Decompress", "Decompress"}, {"", "init", "init"}, {"", "SetLevel", "SetLevel"}} {
+		fmt.Fprintf(&w, "def stmts_gzip_%s : List String := %s\n", fr[2], q(stmtTexts(findFunc(pkgs["gzip"], fr[0], fr[1]))))
+	}
 	// operation sequences of the client and the transports (T2 "structure": the calls themselves, in source order)
 	for _, fr := range [][2]string{{"client", "Do"}, {"client", "Close"}, {"client", "dial"}, {"client", "reconnecting"}, {"client", "reconnect"},
 		{"client", "reconnectDial"}, {"client", "handleResponse"}, {"client", "register"}, {"client", "unregister"}, {"client", "recv"},
